@@ -685,8 +685,17 @@ func vf24PreparedCase(r *verifkit.Run, cache *isessions.ObjectSessionsCache, idx
 		limit := 256 + rng.IntN(512)
 		opts.SetObjectPayloadLimit(uint64(limit))
 		opts.SetCurrentNeoFSEpoch(vf24Epoch)
+		chainSigner := ownerSigner
+		if rng.IntN(3) == 0 {
+			// the client slices within a session the owner issued: every member and the
+			// parent header carry the token and are signed with the session key
+			sessKey = vf24Key(rng)
+			opts.SetSession(vf24SessionToken(rng, env.cnrID, ownerSigner, sessKey))
+			chainSigner = vf24Signer(rng, sessKey)
+			sc.Gen += "+session"
+		}
 		pl := verifkit.RandBytes(rng, limit*2+1+rng.IntN(limit*2))
-		pw, err := slicer.InitPut(context.Background(), col, hdr, ownerSigner, opts)
+		pw, err := slicer.InitPut(context.Background(), col, hdr, chainSigner, opts)
 		if err == nil {
 			_, err = pw.Write(pl)
 		}
@@ -697,7 +706,7 @@ func vf24PreparedCase(r *verifkit.Run, cache *isessions.ObjectSessionsCache, idx
 			r.Inconclusive(fmt.Sprintf("harness: client-side slicing failed: %v (%d objects)", err, len(col.objs)))
 			return
 		}
-		switch sc.Gen {
+		switch in.gen {
 		case "split-first":
 			in.obj = col.objs[0]
 		case "split-middle":
@@ -707,7 +716,8 @@ func vf24PreparedCase(r *verifkit.Run, cache *isessions.ObjectSessionsCache, idx
 		case "split-link":
 			in.obj = col.objs[len(col.objs)-1]
 		}
-		parentSigner = ownerSigner
+		in.signer = chainSigner
+		parentSigner = chainSigner
 	case "ec-part":
 		ru := ecRules[ruleIdx]
 		parentPayload := verifkit.RandBytes(rng, 1+rng.IntN(maxObj))
@@ -811,7 +821,7 @@ func vf24PreparedCase(r *verifkit.Run, cache *isessions.ObjectSessionsCache, idx
 		}
 		parentSigner = ownerSigner
 	}
-	if sc.Gen != "split-first" && sc.Gen != "split-middle" && sc.Gen != "split-last" && sc.Gen != "split-link" {
+	if !strings.HasPrefix(sc.Gen, "split-") {
 		vf24Seal(&in.obj, in.signer)
 	}
 	if pre := vf24Check(&in.obj, ecRules); len(pre) > 0 {
@@ -959,9 +969,12 @@ func vf24PreparedCase(r *verifkit.Run, cache *isessions.ObjectSessionsCache, idx
 	}
 }
 
-// vf24SameTokenBody: b carries a V1 session token whose signed body is byte-identical to
-// the one of a but whose signature differs.
+// vf24SameTokenBody: b (or its parent header) carries a V1 session token whose signed body
+// is byte-identical to the one of a but whose signature differs.
 func vf24SameTokenBody(a, b *object.Object) bool {
+	if pa, pb := a.Parent(), b.Parent(); pa != nil && pb != nil && vf24SameTokenBody(pa, pb) {
+		return true
+	}
 	ta, tb := a.SessionToken(), b.SessionToken()
 	if ta == nil || tb == nil {
 		return false
@@ -981,11 +994,7 @@ func vf24Mutate(rng *rand.Rand, in *vf24Input, stream *[]byte, ecRules []iec.Rul
 	o := &in.obj
 	split := strings.HasPrefix(in.gen, "split-")
 	reseal := func() {
-		if split {
-			// members of a client-made chain: keep it simple, re-ID and re-sign with the owner key
-			vf24Seal(o, ownerSigner)
-			return
-		}
+		// members of a client-made chain: in.signer is the key that sealed the chain
 		vf24Seal(o, in.signer)
 	}
 	muts := []string{"id-bit", "header-field", "checksum", "size-more", "size-less", "payload-byte", "stream-short", "stream-long",
@@ -993,7 +1002,7 @@ func vf24Mutate(rng *rand.Rand, in *vf24Input, stream *[]byte, ecRules []iec.Rul
 	if o.Signature() != nil {
 		muts = append(muts, "sig-bytes", "sig-wrong-key", "sig-none")
 	}
-	if sessKey != nil {
+	if sessKey != nil && o.SessionToken() != nil {
 		muts = append(muts, "session-authkey", "session-signature", "session-issuer", "session-authkey", "session-issuer",
 			"session-signed-by-stranger", "session-signed-by-subject", "session-body-resigned-by-nobody", "session-signature")
 	}
@@ -1005,6 +1014,9 @@ func vf24Mutate(rng *rand.Rand, in *vf24Input, stream *[]byte, ecRules []iec.Rul
 	}
 	if split && in.gen != "split-first" && in.gen != "split-middle" {
 		muts = append(muts, "parent-id", "parent-signature", "parent-attr", "parent-id", "parent-signature")
+		if sessKey != nil {
+			muts = append(muts, "parent-session-signature", "parent-session-signed-by-stranger", "parent-session-issuer", "parent-session-signature", "parent-session-signed-by-stranger")
+		}
 	}
 	m := muts[rng.IntN(len(muts))]
 	switch m {
@@ -1158,6 +1170,32 @@ func vf24Mutate(rng *rand.Rand, in *vf24Input, stream *[]byte, ecRules []iec.Rul
 		par.SetSignature(&sig)
 		o.SetParent(par)
 		reseal()
+	case "parent-session-signature", "parent-session-signed-by-stranger", "parent-session-issuer":
+		// the final parent header (sealed with the session key) carries a token that the
+		// owner did not sign; the member's own token stays the genuine one
+		par := vf24CloneParent(o)
+		if par.SessionToken() == nil || par.Signature() == nil {
+			return "none"
+		}
+		tok := *par.SessionToken()
+		switch m {
+		case "parent-session-signature":
+			if sig, ok := tok.Signature(); ok {
+				v := bytes.Clone(sig.Value())
+				v[rng.IntN(len(v))] ^= 0x20
+				sig.SetValue(v)
+				tok.AttachSignature(sig)
+			}
+		case "parent-session-signed-by-stranger":
+			_ = tok.SetSignature(vf24Signer(rng, vf24Key(rng)))
+		case "parent-session-issuer":
+			_ = tok.Sign(vf24Signer(rng, vf24Key(rng)))
+		}
+		par.SetSessionToken(&tok)
+		vf24Seal(par, parentSigner)
+		o.SetParent(par)
+		o.SetParentID(par.GetID())
+		reseal()
 	case "grandparent-id", "grandparent-signature":
 		// the part's parent is the last split member, whose own parent header is final
 		par := vf24CloneParent(o)
@@ -1189,7 +1227,6 @@ func vf24Mutate(rng *rand.Rand, in *vf24Input, stream *[]byte, ecRules []iec.Rul
 		o.SetParent(par)
 		reseal()
 	}
-	_ = parentSigner
 	return m
 }
 
